@@ -122,10 +122,26 @@ func (v *varValidator) validateVarType(typ *ast.Type, val reflect.Value) (reflec
 				}
 				field = field.Elem()
 			}
-			_, err := v.validateVarType(typ.Elem, field)
+			cval, err := v.validateVarType(typ.Elem, field)
 			if err != nil {
 				return val, err
 			}
+			if !cval.IsValid() || !field.IsValid() || cval.Type() == field.Type() {
+				// null item, or the item was validated (and coerced) in place
+				continue
+			}
+			// The item itself was coerced to a list (a single value where a list is expected,
+			// or a typed list that had to be rebuilt): store the coerced item back.
+			if !cval.Type().AssignableTo(val.Type().Elem()) {
+				// a typed slice (e.g. []int) cannot hold the coerced item (e.g. []int{1}):
+				// continue with a copy of the list as []interface{}
+				slc := reflect.MakeSlice(reflect.TypeOf([]interface{}{}), val.Len(), val.Len())
+				for j := 0; j < val.Len(); j++ {
+					slc.Index(j).Set(val.Index(j))
+				}
+				val = slc
+			}
+			val.Index(i).Set(cval)
 		}
 		return val, nil
 	}
